@@ -67,7 +67,7 @@ def r20_1(ctx):
                     models = [("asyncio.get_running_loop", lambda px_, t, a, k, fr: cur), ("asyncio.get_event_loop", lambda px_, t, a, k, fr: cur),
                               ("*.is_closed", lambda px_, t, a, k, fr: closed),
                               ("asyncio.iscoroutinefunction", lambda px_, t, a, k, fr: coro), ("inspect.iscoroutinefunction", lambda px_, t, a, k, fr: coro),
-                              ("call", lambda px_, t, a, k, fr: Sym("coroutine") if coro else (None if result is None else Obj(TypeRef("object"), {}, tag="result")))]
+                              ("func", lambda px_, t, a, k, fr: Sym("coroutine") if coro else (None if result is None else Obj(TypeRef("object"), {}, tag="result")))]
                     px = PX(repo, models=models, inline=lambda g, aw: False)
 
                     def entry():
@@ -77,7 +77,7 @@ def r20_1(ctx):
                         ctx.paths += 1
                         key = f"same_loop={same},closed={closed},coroutine={coro},result={result}"
                         ev = [e for e in p.events if e.kind == "call"]
-                        direct = [e for e in ev if e.what == "call"]
+                        direct = [e for e in ev if e.what == "func"]
                         rct = [e for e in ev if e.what.endswith("run_coroutine_threadsafe")]
                         cst = [e for e in ev if e.what.endswith("call_soon_threadsafe")]
                         wf = [e for e in ev if e.what.endswith("wrap_future")]
@@ -111,7 +111,7 @@ def r20_1(ctx):
                                     return px.call_function(inner, None, [], {}, None)
 
                                 for q in px._run(entry2):
-                                    ran = [e for e in q.events if e.kind == "call" and e.what == "call"]
+                                    ran = [e for e in q.events if e.kind == "call" and e.what == "func"]
                                     if len(ran) != 1:
                                         bad = f"the queued closure invokes the method {len(ran)} times"
                                     elif (result is None) != (q.terminal == "return"):
